@@ -214,8 +214,71 @@ func permutations(n int) [][]int {
 	return out
 }
 
+// repeatedSources: an entry that names one source twice (anywhere in its list, with whatever lies in between) holds two
+// intentions for one pair with equal precedence; which of them decides would depend on how they were written. Such
+// an entry must be refused.
+func repeatedSources(c *ev.Ctx) {
+	type sa struct {
+		name, peer string
+		act        structs.IntentionAction
+	}
+	var menu []sa
+	for _, n := range [][2]string{{"a", ""}, {"b", ""}, {"*", ""}, {"a", "p1"}} {
+		for _, act := range []structs.IntentionAction{structs.IntentionActionAllow, structs.IntentionActionDeny} {
+			menu = append(menu, sa{n[0], n[1], act})
+		}
+	}
+	var lists [][]sa
+	var rec func(cur []sa)
+	rec = func(cur []sa) {
+		if len(cur) >= 2 {
+			lists = append(lists, append([]sa{}, cur...))
+		}
+		if len(cur) == 3 {
+			return
+		}
+		for _, m := range menu {
+			rec(append(cur, m))
+		}
+	}
+	rec(nil)
+	var n, dups int64
+	for _, l := range lists {
+		seen := map[[2]string]bool{}
+		dup := false
+		for _, x := range l {
+			k := [2]string{x.name, x.peer}
+			if seen[k] {
+				dup = true
+			}
+			seen[k] = true
+		}
+		if !dup {
+			continue
+		}
+		dups++
+		w := world.New()
+		w.Apply(cmdlib.IntentionsInConfigEntries())
+		e := &structs.ServiceIntentionsConfigEntry{Kind: structs.ServiceIntentions, Name: "x"}
+		var label []string
+		for _, x := range l {
+			e.Sources = append(e.Sources, &structs.SourceIntention{Name: x.name, Peer: x.peer, Action: x.act})
+			label = append(label, fmt.Sprintf("%s%s:%s", x.name, peerSfx(x.peer), x.act))
+		}
+		// (an entry refused by Normalize / Validate, which the endpoint runs before raft, never becomes a command)
+		r, enabled := w.Apply(cmdlib.CE{Label: "service-intentions/x(repeated source)", Make: func() structs.ConfigEntry { return e.Clone() }}.Upsert())
+		n++
+		if enabled && !strings.HasPrefix(r, "err:") {
+			c.Violate("C13:entry-naming-a-source-twice-accepted", fmt.Sprintf("service-intentions x with sources %v was accepted (%s): two intentions for one pair, the decision depends on their order", label, r),
+				map[string]any{"sources": label})
+		}
+	}
+	c.Set("entries_with_a_repeated_source_written", n)
+}
+
 func Run(c *ev.Ctx) {
 	quick := c.Quick()
+	repeatedSources(c)
 	type key struct{ Src, Peer, Dst string }
 	var tuples []key
 	for _, d := range []string{"x", "*"} {
